@@ -13,6 +13,7 @@ import Driver.Dispatch
 import Driver.Life
 import Driver.Up
 import Driver.Rec
+import Driver.Wire
 /-
   Line-protocol driver: one request per line on stdin, one canonical answer per line on stdout.
   The same request lines are executed by the Go harness against the real implementation.
@@ -38,6 +39,7 @@ def step (line : String) : String :=
   | "lc" :: rest => lcLine toks.tail!
   | "up" :: rest => upLine toks.tail!
   | "rec" :: rest => recLine toks.tail!
+  | "wire" :: rest => wireLine rest
   | "rc" :: rest => rcLine toks.tail!
   | _ => "bad-op"
 
